@@ -293,6 +293,47 @@ def rule_escape(ctx, cfg, prog):
     return uses
 
 
+def rule_const_inputs(ctx, cfg, prog):
+    """an object handed in through a pointer / reference to const is not state the routine may keep: no data member of a library
+    record is `mutable`, and no library cast removes const from a pointee (the two ways to write into a const input)"""
+    n = 0
+    for name, rec in sorted(prog.records.items()):
+        if not name.startswith('embedded_pairing::'):
+            continue
+        for fld in rec.get('fields') or []:
+            n += 1
+            ctx.ob('R-EFFECT/const', not fld.get('mutable'), 'mutable|%s|%s' % (name, fld['name']), name,
+                   '%s::%s is declared mutable: a routine that receives the object as a const input can keep state in it between (and during) '
+                   'calls; two evaluations that share the input then interfere' % (name, fld['name']), cfg=cfg)
+    for f in prog.functions.values():
+        if 'body' not in f or not f['l'][0].startswith(('src/', 'include/')):
+            continue
+        for x, par in with_parents(f['body']):
+            if x.get('k') != 'cast' or x.get('ck') not in ('NoOp', 'BitCast', 'ConstCast', None):
+                continue
+            # a pointer that is only dereferenced and read is harmless: climb through *, [], ., casts up to the load
+            only_read = False
+            for (pn, key) in reversed(par):
+                pk = pn.get('k')
+                if pk == 'load':
+                    only_read = True
+                    break
+                if pk in ('cast', 'member', 'paren') or (pk == 'un' and pn.get('op') == '*') or (pk == 'index' and key == 'base'):
+                    continue
+                break
+            if only_read:
+                continue
+            dt, st_ = (x.get('t') or {}), ((x.get('e') or {}).get('t') or {})
+            if dt.get('k') not in ('ptr', 'ref') or st_.get('k') not in ('ptr', 'ref'):
+                continue
+            dp, sp = dt.get('pointee') or {}, st_.get('pointee') or {}
+            if sp.get('const') and not dp.get('const') and dp.get('k') != 'void' and (dp.get('size') or 0) > 0:
+                n += 1
+                ctx.ob('R-EFFECT/const', False, 'constcast|%s|%s' % (f['qn'][:90], loc_str(x)), loc_str(x),
+                       '%s casts away const (%s -> %s): the result can be used to write into an input object' % (f['qn'], st_.get('s'), dt.get('s')), cfg=cfg)
+    return n
+
+
 def run(ctx):
     ctx.explanation = EXPL
     ctx.level = 'proof'
@@ -312,6 +353,8 @@ def run(ctx):
             nw = rule_state(ctx, cfg, built, progs[cfg])
             ctx.floor('IR writes classified[%s]' % cfg, nw, 200)
             nu = rule_escape(ctx, cfg, progs[cfg])
+            nc = rule_const_inputs(ctx, cfg, progs[cfg])
+            ctx.floor('R-EFFECT/const data members examined[%s]' % cfg, nc, 60)
             ctx.count('mutable_global_uses[%s]' % cfg, nu)
     finally:
         import shutil
